@@ -145,7 +145,9 @@ class G(object):
             if fd["w"] >= 2 and not signed:
                 hi = r.randint(0, fd["w"] - 1)
                 lo = r.randint(0, hi)
-                return ["ps", list(p), hi, lo] if (hi != lo or r.random() < 0.5) else ["bs", list(p), hi]
+                # x[i] on an indexed element reference means array subscript, not bit-select: keep the slice form there
+                indexed = any(isinstance(x, int) for x in p)
+                return ["ps", list(p), hi, lo] if (hi != lo or indexed or r.random() < 0.5) else ["bs", list(p), hi]
         p, fd = r.choice(ls)
         return ["f", list(p)]
 
@@ -318,6 +320,8 @@ def scalar_program(rng, max_bits=10, nblocks=None, opts=None):
     nb = nblocks if nblocks is not None else rng.choice([1, 1, 2, 2, 3])
     for i in range(nb):
         prog["classes"]["C0"]["blocks"].append(g.block(scope, "c%d" % i))
+    if rng.random() < (opts or {}).get("plant_p", 0.75):
+        plant(prog, g)
     return prog, g
 
 
@@ -330,7 +334,8 @@ def validate(prog, hist_calls=1):
     return call
 
 
-def history(g, prog, ncalls=4, kinds=("randomize", "with", "free"), edits=True, inst="o0", inline_allow=("e", "if", "imp")):
+def history(g, prog, ncalls=4, kinds=("randomize", "with", "free"), edits=True, inst="o0", inline_allow=("e", "if", "imp"),
+            free_unpassed=False):
     """calls on one instance with fresh non-random values in between"""
     r = g.rng
     top = prog["top"]
@@ -365,7 +370,417 @@ def history(g, prog, ncalls=4, kinds=("randomize", "with", "free"), edits=True, 
                 # inline constraints of a free-standing call only mention the passed fields and
                 # fields that are declared non-random (a random-declared field that is not passed
                 # is exercised by the C03 generator only)
-                sub = [(p, fd) for p, fd in scope if list(p) in fs or not fd["r"]]
+                sub = scope if free_unpassed else [(p, fd) for p, fd in scope if list(p) in fs or not fd["r"]]
                 st = [s for s in (g.stmt(sub, depth=1, sdepth=0, allow=("e",)) for _ in range(1)) if s]
                 hist.append({"op": "free", "o": inst, "fields": fs, "inline": st, "seed": r.randint(0, 999)})
+    return hist
+
+
+# ---------------------------------------------------------------------------
+# object trees
+# ---------------------------------------------------------------------------
+
+NAME_POOL = ["zq", "ab", "mm", "x", "Yk", "b0", "_p", "ca", "w", "Bz", "dd", "e9", "aa", "zz", "k_", "q"]
+
+
+def tree_program(rng, max_bits=10, with_obj_list=True, with_collections=False, nleaf_classes=None, deep=False):
+    """Top object with own scalars, several sub-objects (random and non-random,
+    siblings of one class) and optionally a list of objects; attribute names are
+    chosen so that dir() order differs from declaration order."""
+    r = rng
+    g = G(rng, max_bits)
+    names = list(NAME_POOL)
+    r.shuffle(names)
+    prog = {"enums": g.enums, "classes": {}, "top": "Top"}
+    nleaf = nleaf_classes or r.choice([1, 1, 2])
+    budget = max_bits
+    for li in range(nleaf):
+        cname = "L%d" % li
+        fs = []
+        for j in range(r.randint(1, 2)):
+            fs.append(g.int_field("%s%d" % (r.choice(["v", "a", "z", "m"]), j), True, w=r.choice([1, 2, 2, 3]), signed=r.random() < 0.3))
+        if r.random() < 0.4:
+            fs.append(g.int_field("kk", False, w=r.choice([2, 3, 4])))
+        prog["classes"][cname] = {"base": None, "fields": fs, "blocks": []}
+        sc = scope_of(prog, cname)
+        nb = r.choice([0, 1, 1, 2])
+        for bi in range(nb):
+            prog["classes"][cname]["blocks"].append(g.block(sc, "lc%d" % bi, nst=r.randint(1, 2), depth=1, sdepth=1))
+    top_fields = []
+    used_bits = 0
+
+    def leafbits(cname):
+        n = 0
+        for fd in prog["classes"][cname]["fields"]:
+            if fd["k"] == "int" and fd["r"]:
+                n += fd["w"]
+            elif fd["k"] == "obj" and fd["r"]:
+                n += leafbits(fd["c"])
+        return n
+    sub_classes = ["L%d" % i for i in range(nleaf)]
+    if deep:
+        # a middle level: object holding leaf objects (several siblings of one class) and relating them
+        mf = [g.int_field("mv", True, w=r.choice([1, 2]), signed=False)]
+        for j in range(r.randint(1, 2)):
+            mf.append({"n": r.choice(["sa", "sb", "zz", "a_"]) + str(j), "k": "obj", "c": "L%d" % r.randrange(nleaf),
+                       "r": r.random() < 0.75})
+        prog["classes"]["M0"] = {"base": None, "fields": mf, "blocks": []}
+        msc = scope_of(prog, "M0")
+        for bi in range(r.randint(1, 2)):
+            prog["classes"]["M0"]["blocks"].append(g.block(msc, "mc%d" % bi, nst=r.randint(1, 2), depth=1, sdepth=1))
+        sub_classes.append("M0")
+    for j in range(r.randint(1, 2)):
+        fd = g.int_field(names.pop(), True, w=r.choice([1, 2, 3]), signed=r.random() < 0.3)
+        top_fields.append(fd)
+        used_bits += fd["w"]
+    if r.random() < 0.6:
+        top_fields.append(g.int_field(names.pop(), False, w=r.choice([2, 3, 4])))
+    nsub = r.randint(2, 3)
+    for j in range(nsub):
+        c = r.choice(sub_classes)
+        isrand = r.random() < 0.65
+        if isrand and used_bits + leafbits(c) > budget:
+            isrand = False
+        if isrand:
+            used_bits += leafbits(c)
+        top_fields.append({"n": names.pop(), "k": "obj", "c": c, "r": isrand})
+    if with_obj_list and r.random() < 0.5:
+        c = "L%d" % r.randrange(nleaf)
+        sz = r.choice([1, 2, 2])
+        if used_bits + sz * leafbits(c) <= budget:
+            used_bits += sz * leafbits(c)
+            top_fields.append({"n": names.pop(), "k": "list", "ek": "obj", "c": c, "r": True, "sz": sz})
+    if with_collections:
+        if r.random() < 0.7:
+            items = []
+            for _ in range(r.randint(1, 3)):
+                a = r.randint(0, 7)
+                items.append([a, a + r.randint(0, 3)] if r.random() < 0.4 else a)
+            top_fields.append({"n": "rl0", "k": "rangelist", "items": items})
+        if r.random() < 0.7:
+            top_fields.append({"n": "nl0", "k": "list", "ek": "int", "w": 4, "s": False, "r": False,
+                               "init": [r.randint(0, 9) for _ in range(r.randint(1, 3))]})
+    r.shuffle(top_fields)
+    prog["classes"]["Top"] = {"base": None, "fields": top_fields, "blocks": []}
+    scope = [(p, fd) for p, fd in scope_of(prog, "Top") if p[0] != "nl0"]   # elements of the mutable list are never named by index
+    nb = r.choice([1, 2, 2, 3])
+    for bi in range(nb):
+        blk = g.block(scope, "tc%d" % bi, nst=r.randint(1, 3), depth=1, sdepth=1)
+        prog["classes"]["Top"]["blocks"].append(blk)
+    if with_collections:
+        unsigned_rand = [(p, fd) for p, fd in scope if fd["k"] == "int" and not fd["s"] and fd["r"] and len(p) == 1]
+        extra = []
+        for fd in top_fields:
+            if fd["k"] == "rangelist" and unsigned_rand:
+                p, _ = r.choice(unsigned_rand)
+                extra.append(["e", [r.choice(["in", "in", "nin"]), ["f", list(p)], [["rl", fd["n"]]]]])
+            if fd["k"] == "list" and fd.get("ek") == "int" and not fd["r"] and unsigned_rand:
+                p, _ = r.choice(unsigned_rand)
+                extra.append(["e", [r.choice(["in", "in", "nin"]), ["f", list(p)], [["lst", [fd["n"]]]]]])
+        if extra:
+            prog["classes"]["Top"]["blocks"].append({"n": "tcoll", "st": extra})
+    if r.random() < 0.85:
+        plant(prog, g)
+    return prog, g
+
+
+def tree_history(g, prog, nops=12, inst="o0", toggles=True, collections=True, free=True, sub_calls=True):
+    r = g.rng
+    scope = [(p, fd) for p, fd in scope_of(prog, "Top") if p[0] != "nl0"]
+    hist = []
+    mutable_lists = set(fd["n"] for fd in R.all_fields(prog, "Top") if fd["k"] == "list" and fd.get("ek") == "int" and not fd["r"])
+    scal = [(p, fd) for p, fd in scope if p[0] not in mutable_lists]
+    ncalls = 0
+    top_fields = R.all_fields(prog, "Top")
+    for i in range(nops):
+        c = r.random()
+        if c < 0.25:
+            p, fd = r.choice(scal)
+            # assigning any field (random or not): a later call must treat non-random ones as constants
+            hist.append({"op": "set", "o": inst, "path": list(p), "v": g.rand_val(fd["w"], fd["s"])})
+        elif c < 0.38 and toggles:
+            rands = [(p, fd) for p, fd in scal if fd["r"] and not any(isinstance(x, int) for x in p)]
+            if rands:
+                p, fd = r.choice(rands)
+                hist.append({"op": "rand_mode", "o": inst, "path": list(p), "v": r.random() < 0.4})
+        elif c < 0.50 and collections:
+            coll = [fd for fd in top_fields if fd["k"] == "rangelist" or (fd["k"] == "list" and fd.get("ek") == "int" and not fd["r"])]
+            if coll:
+                fd = r.choice(coll)
+                if fd["k"] == "rangelist":
+                    k = r.choice(["rl_append", "rl_append", "rl_extend", "rl_clear"])
+                    a = r.randint(0, 7)
+                    item = [a, a + r.randint(0, 2)] if r.random() < 0.4 else a
+                    if k == "rl_clear":
+                        hist.append({"op": "rl_clear", "o": inst, "path": [fd["n"]]})
+                        hist.append({"op": "rl_append", "o": inst, "path": [fd["n"]], "v": item})
+                    elif k == "rl_append":
+                        hist.append({"op": "rl_append", "o": inst, "path": [fd["n"]], "v": item})
+                    else:
+                        hist.append({"op": "rl_extend", "o": inst, "path": [fd["n"]], "v": [item, r.randint(0, 7)]})
+                else:
+                    k = r.choice(["l_append", "l_assign", "l_clear", "l_extend"])
+                    if k == "l_append":
+                        hist.append({"op": "l_append", "o": inst, "path": [fd["n"]], "v": r.randint(0, 9)})
+                    elif k == "l_extend":
+                        hist.append({"op": "l_extend", "o": inst, "path": [fd["n"]], "v": [r.randint(0, 9), r.randint(0, 9)]})
+                    elif k == "l_assign":
+                        hist.append({"op": "l_assign", "o": inst, "path": [fd["n"]], "v": [r.randint(0, 9) for _ in range(r.randint(1, 3))]})
+                    else:
+                        hist.append({"op": "l_clear", "o": inst, "path": [fd["n"]]})
+                        hist.append({"op": "l_append", "o": inst, "path": [fd["n"]], "v": r.randint(0, 9)})
+        else:
+            ncalls += 1
+            k = r.random()
+            if k < 0.5:
+                hist.append({"op": "randomize", "o": inst})
+            elif k < 0.75:
+                stl = [s for s in (g.stmt(scope, depth=1, sdepth=1, allow=("e", "imp")) for _ in range(r.randint(1, 2))) if s]
+                hist.append({"op": "with", "o": inst, "inline": stl})
+            elif k < 0.9 and free:
+                cand = [list(p) for p, fd in scope if len(p) == 1]
+                if cand:
+                    hist.append({"op": "free", "o": inst, "fields": r.sample(cand, r.randint(1, min(2, len(cand)))),
+                                 "seed": r.randint(0, 999)})
+            elif sub_calls:
+                subs = [fd for fd in top_fields if fd["k"] == "obj"]
+                if subs:
+                    hist.append({"op": "randomize", "o": inst, "target": [r.choice(subs)["n"]]})
+    if ncalls == 0:
+        hist.append({"op": "randomize", "o": inst})
+    return hist
+
+
+def plant(prog, g, tries=5, drop_p=0.8):
+    """Planted-witness pass: draw an assignment of the random leaves of a fresh top
+    object, then regenerate (or drop) class statements that the reference evaluates
+    to false on it, so that most generated programs are satisfiable on their initial
+    state.  Some unsatisfiable ones are kept on purpose."""
+    r = g.rng
+    top = prog["top"]
+    try:
+        st = R.new_state(prog, top)
+        call = R.Call(prog, st)
+    except Exception:
+        return prog
+    env = {}
+    for p, t in call.rand_leaves:
+        dom = list(R.leaf_domain(prog, t))
+        env[p] = r.choice(dom)
+    by_class = {}
+    for path, ost, used in call.objs:
+        if used:
+            by_class.setdefault(ost["cls"], []).append(path)
+    for cname, paths in by_class.items():
+        for c in R.class_chain(prog, cname):
+            sc = scope_of(prog, c)     # a block may only name fields of the class that defines it
+            if cname == top:
+                sc = [(p, fd) for p, fd in sc if p[0] != "nl0"]
+            for blk in prog["classes"][c]["blocks"]:
+                if blk.get("dyn") or blk["n"] == "tcoll":
+                    continue
+                new = []
+                for s in blk["st"]:
+                    cur = s
+                    ok = False
+                    for _ in range(tries):
+                        try:
+                            ok = all(R.stmt_holds(cur, R.Ctx(prog, st, path, env)) for path in paths)
+                        except R.Corner:
+                            ok = False
+                        except Exception:
+                            ok = False
+                        if ok or cur[0] in ("soft", "so", "dist"):
+                            ok = True
+                            break
+                        cur = g.stmt(sc, depth=1, sdepth=1) or cur
+                    if ok or r.random() > drop_p:
+                        new.append(cur)
+                blk["st"] = new
+    return prog
+
+
+# ---------------------------------------------------------------------------
+# class hierarchies with overridden blocks (C07)
+# ---------------------------------------------------------------------------
+
+def hierarchy_program(rng, max_bits=9):
+    r = rng
+    g = G(rng, max_bits)
+    prog = {"enums": {}, "classes": {}, "top": "B0"}
+    nf = r.randint(2, 3)
+    fields = [g.int_field("f%d" % i, True, w=r.choice([2, 2, 3]), signed=r.random() < 0.25) for i in range(nf)]
+    if r.random() < 0.5:
+        fields.append(g.int_field("k0", False, w=3))
+    prog["classes"]["B0"] = {"base": None, "fields": fields, "blocks": []}
+    names = ["c0", "c1", "c2"][: r.randint(2, 3)]
+    sc = scope_of(prog, "B0")
+    for n in names:
+        prog["classes"]["B0"]["blocks"].append(g.block(sc, n, nst=r.randint(1, 2), depth=1, sdepth=1))
+    depth = r.choice([1, 2, 2, 3])
+    prev = "B0"
+    chain = ["B0"]
+    for d in range(1, depth):
+        cn = "D%d" % d
+        extra = []
+        if r.random() < 0.4:
+            extra.append(g.int_field("g%d" % d, True, w=r.choice([1, 2]), signed=False))
+        prog["classes"][cn] = {"base": prev, "fields": extra, "blocks": []}
+        sc = scope_of(prog, cn)
+        over = [n for n in names if r.random() < 0.55]
+        for n in over:
+            prog["classes"][cn]["blocks"].append(g.block(sc, n, nst=r.randint(1, 2), depth=1, sdepth=1))
+        if r.random() < 0.4:
+            nn = "c%d" % (len(names) + d + 2)
+            prog["classes"][cn]["blocks"].append(g.block(sc, nn, nst=1, depth=1, sdepth=0))
+        prev = cn
+        chain.append(cn)
+    # a holder with a nested instance and a list of instances
+    inner = r.choice(chain)
+    lst = r.choice(chain)
+    hf = [{"n": "own", "k": "int", "w": 2, "s": False, "r": True},
+          {"n": "sub", "k": "obj", "c": inner, "r": True}]
+    if r.random() < 0.7:
+        hf.append({"n": "items", "k": "list", "ek": "obj", "c": lst, "r": True, "sz": 2})
+    prog["classes"]["H"] = {"base": None, "fields": hf, "blocks": []}
+    if r.random() < 0.6:
+        sc = [(p, fd) for p, fd in scope_of(prog, "H")]
+        prog["classes"]["H"]["blocks"].append(g.block(sc, "hc", nst=1, depth=1, sdepth=0))
+    prog["top"] = r.choice(chain)
+    prog["_chain"] = chain
+    return prog, g
+
+
+def hierarchy_history(g, prog, nops=14):
+    r = g.rng
+    chain = prog["_chain"]
+    insts = {"o0": prog["top"]}
+    hist = []
+    ncalls = 0
+
+    def block_names(cname):
+        return [b["n"] for b in R.effective_blocks(prog, cname) if not b.get("dyn")]
+
+    def targets(inst):
+        """(path, class) of every object with blocks reachable from an instance"""
+        cn = insts[inst]
+        out = [([], cn)]
+        if cn == "H":
+            for fd in prog["classes"]["H"]["fields"]:
+                if fd["k"] == "obj":
+                    out.append(([fd["n"]], fd["c"]))
+                elif fd["k"] == "list":
+                    for i in range(fd["sz"]):
+                        out.append(([fd["n"], i], fd["c"]))
+        return out
+    for i in range(nops):
+        c = r.random()
+        if c < 0.18 and len(insts) < 5:
+            name = "o%d" % len(insts)
+            cn = r.choice(chain + ["H"])
+            insts[name] = cn
+            hist.append({"op": "new", "name": name, "cls": cn})
+        elif c < 0.55:
+            inst = r.choice(sorted(insts))
+            path, cn = r.choice(targets(inst))
+            bn = block_names(cn)
+            if bn:
+                hist.append({"op": "cmode", "o": inst, "path": path, "blk": r.choice(bn), "v": r.random() < 0.4})
+        else:
+            inst = r.choice(sorted(insts))
+            ncalls += 1
+            if r.random() < 0.75:
+                hist.append({"op": "randomize", "o": inst})
+            else:
+                sc = scope_of(prog, insts[inst])
+                st = [s for s in (g.stmt(sc, depth=1, sdepth=0, allow=("e",)) for _ in range(1)) if s]
+                hist.append({"op": "with", "o": inst, "inline": st})
+    for inst in sorted(insts):
+        hist.append({"op": "randomize", "o": inst})
+    return hist
+
+
+# ---------------------------------------------------------------------------
+# inline / dynamic constraints (C06)
+# ---------------------------------------------------------------------------
+
+def dyn_program(rng, max_bits=9):
+    r = rng
+    g = G(rng, max_bits)
+    prog = {"enums": {}, "classes": {}, "top": "P"}
+    nf = r.randint(2, 3)
+    fields = [g.int_field("f%d" % i, True, w=r.choice([2, 3, 3]), signed=r.random() < 0.2) for i in range(nf)]
+    if r.random() < 0.4:
+        fields.append(g.int_field("k0", False, w=3))
+    prog["classes"]["P"] = {"base": None, "fields": fields, "blocks": []}
+    sc = scope_of(prog, "P")
+    for i in range(r.randint(0, 2)):
+        prog["classes"]["P"]["blocks"].append(g.block(sc, "c%d" % i, nst=1, depth=1, sdepth=0))
+    for i in range(r.randint(1, 3)):
+        b = g.block(sc, "d%d" % i, nst=r.randint(1, 2), depth=1, sdepth=0, allow=("e",))
+        b["dyn"] = True
+        prog["classes"]["P"]["blocks"].append(b)
+    if r.random() < 0.45:
+        # a holder with a list of P objects, to reference dynamic constraints through list elements
+        prog["classes"]["Q"] = {"base": None, "fields": [
+            {"n": "own", "k": "int", "w": 2, "s": False, "r": True},
+            {"n": "items", "k": "list", "ek": "obj", "c": "P", "r": True, "sz": 2}], "blocks": []}
+        prog["_has_q"] = True
+    plant(prog, g)
+    return prog, g
+
+
+def dyn_history(g, prog, nops=12):
+    r = g.rng
+    dyns = [b["n"] for b in prog["classes"]["P"]["blocks"] if b.get("dyn")]
+    insts = {"o0": "P"}
+    hist = []
+    scP = scope_of(prog, "P")
+
+    def dyn_term(path):
+        return ["dyn", list(path), r.choice(dyns)]
+
+    def inline_for(cls):
+        st = []
+        if cls == "P":
+            base = []
+            sc = scP
+        else:
+            base = ["items", r.randrange(2)]
+            sc = scope_of(prog, "Q")
+        # one to three statements with dynamic references; the same block may be referenced repeatedly
+        for _k in range(r.choice([1, 1, 2, 2, 3])):
+            c = r.random()
+            if c < 0.30:
+                st.append(["e", dyn_term(base)])
+            elif c < 0.50 and len(dyns) >= 2:
+                a, b = r.sample(dyns, 2)
+                st.append(["e", ["b", "|", ["dyn", list(base), a], ["dyn", list(base), b]]])
+            elif c < 0.65:
+                e = g.boolean(sc, 1, 0)
+                if e:
+                    st.append(["e", ["b", r.choice(["&", "|"]), dyn_term(base), e]])
+            elif c < 0.80:
+                st.append(["e", ["n", dyn_term(base)]])
+        if not st or r.random() < 0.5:
+            s = g.stmt(sc, depth=1, sdepth=1, allow=("e", "imp"))
+            if s:
+                st.append(s)
+        r.shuffle(st)
+        return st
+    population = r.random() < 0.5    # half of the cases keep a single instance alive
+    for i in range(nops):
+        c = r.random()
+        if population and c < 0.2 and len(insts) < 5:
+            name = "o%d" % len(insts)
+            cn = "Q" if (prog.get("_has_q") and r.random() < 0.4) else "P"
+            insts[name] = cn
+            hist.append({"op": "new", "name": name, "cls": cn})
+        else:
+            inst = r.choice(sorted(insts))
+            if r.random() < 0.4:
+                hist.append({"op": "randomize", "o": inst})
+            else:
+                hist.append({"op": "with", "o": inst, "inline": inline_for(insts[inst])})
+    hist.append({"op": "randomize", "o": "o0"})
     return hist
